@@ -59,6 +59,10 @@ struct Acc {
 	focus: BTreeMap<&'static str, u64>,
 	/// (label, note) of the first case by label on which duke disagreed with the strict parser
 	duke_note: Option<(String, String)>,
+	io_short_serves: u64,
+	io_interrupts: u64,
+	io_short_accepts: u64,
+	edit_chains: BTreeMap<&'static str, u64>,
 }
 
 impl Acc {
@@ -78,6 +82,12 @@ impl Acc {
 		for (k, v) in o.focus {
 			*self.focus.entry(k).or_insert(0) += v;
 		}
+		for (k, v) in o.edit_chains {
+			*self.edit_chains.entry(k).or_insert(0) += v;
+		}
+		self.io_short_serves += o.io_short_serves;
+		self.io_interrupts += o.io_interrupts;
+		self.io_short_accepts += o.io_short_accepts;
 		self.read_census.merge(o.read_census);
 		self.value_census.merge(o.value_census);
 		self.duke_note = match (self.duke_note.take(), o.duke_note) {
@@ -288,6 +298,143 @@ fn byte_diffs(expected: &[u8], actual: &[u8], p: &Parsed) -> Vec<(String, String
 // ---------------------------------------------------------------------------------------------
 // part 1: file → value → file
 
+// ---------------------------------------------------------------------------------------------
+// the environment: every legal behaviour of the `Read` / `Write` the class travels through
+//
+// A class file is the same class file whether it arrives from a slice, a `BufReader`, a zip entry or a
+// socket: `Read::read` may serve fewer bytes than asked for and may ask for a retry (`Interrupted`),
+// `Write::write` may accept fewer bytes than offered. The deviation from the default environment
+// (everything in memory, every request served in full) is enumerated: chunk sizes, buffer capacities,
+// one split at every byte offset, periodic boundaries with every phase; a writer that fails after
+// every prefix must make `write` return the error.
+
+#[derive(Clone, Copy, PartialEq, Eq)]
+enum Depth {
+	/// the bulk spaces (shape sweep, stack map frame pairs)
+	Small,
+	/// everything else
+	Full,
+}
+
+fn reader_alphabet(len: usize, depth: Depth) -> Vec<io::ReaderKind> {
+	use io::ReaderKind as K;
+	if depth == Depth::Small {
+		return vec![K::Chunk(1), K::Chunk(3), K::Buf(5), K::Interrupted(2), K::Periodic { period: 7, phase: 3 }];
+	}
+	let mut v = vec![K::Slice, K::CursorVec];
+	v.extend([1, 2, 3, 5, 8, 13].map(K::Chunk));
+	v.extend([1, 2, 3, 4, 7, 8, 16, 64].map(K::Buf));
+	v.extend([1, 4, 16].map(K::BufOverChunk3));
+	v.extend([1, 4].map(K::Interrupted));
+	for period in [2usize, 3, 4, 5, 7, 8, 16, 61] {
+		for phase in 0..period.min(4) {
+			v.push(K::Periodic { period, phase });
+		}
+	}
+	// one boundary, at every byte offset of a small file; at a fixed grid of a larger one
+	let step = if len <= 700 { 1 } else { len / 331 + 1 };
+	v.extend((1..len).step_by(step).map(K::SplitAt));
+	v
+}
+
+fn writer_alphabet(len: usize, depth: Depth) -> Vec<io::WriterKind> {
+	use io::WriterKind as K;
+	if depth == Depth::Small {
+		return vec![K::Chunk(1), K::Interrupted(3), K::Buf(5), K::ExactSlice];
+	}
+	let mut v = vec![K::CursorVec, K::ExactSlice];
+	v.extend([1, 2, 3, 7].map(K::Chunk));
+	v.extend([1, 5].map(K::Interrupted));
+	v.extend([1, 3, 8, 64].map(K::Buf));
+	let step = if len <= 300 { 1 } else { len / 101 + 1 };
+	v.extend((1..len).step_by(step).map(K::SplitAt));
+	v
+}
+
+/// `bytes` is a file that `ClassFile::read` reads from a cursor as `value` and writes back byte for byte:
+/// the same must happen through every reader and writer of the alphabet.
+fn io_alphabet(ctx: &Ctx, acc: &mut Acc, bytes: &[u8], value: &ClassFile, depth: Depth, replay: &dyn Fn() -> String) {
+	for kind in reader_alphabet(bytes.len(), depth) {
+		let fam = kind.family();
+		let rp = || format!("reader={kind:?}\n{}", replay());
+		let (res, trace) = io::with_reader(kind, bytes, |mut r| vcore::guard(|| ClassFile::read(&mut r)));
+		acc.st.eval();
+		acc.io_short_serves += trace.short_serves;
+		acc.io_interrupts += trace.interrupts;
+		match res {
+			Err(p) => {
+				acc.st.outcome("io-read-panicked");
+				ctx.diff(&format!("read:{fam}-reader:panic"), &format!("read panicked at {} on a class that it reads from a cursor: {}", p.site, p.msg), &rp);
+			},
+			Ok(Err(e)) => {
+				acc.st.outcome("io-read-refused");
+				ctx.diff(&format!("read:{fam}-reader:refused"), &format!("read refuses, through {kind:?}, a class that it reads from a cursor: {e}"), &rp);
+			},
+			Ok(Ok(v)) if &v != value => {
+				acc.st.outcome("io-read-differs");
+				ctx.diff(&format!("read:{fam}-reader:differs"), &format!("through {kind:?} read returns another value than from a cursor over the same bytes"), &rp);
+			},
+			Ok(Ok(_)) if trace.consumed != bytes.len() => {
+				acc.st.outcome("io-read-consumed-wrong");
+				ctx.diff(&format!("read:{fam}-reader:bytes-consumed"), &format!("through {kind:?} read consumed {} of {} bytes", trace.consumed, bytes.len()), &rp);
+			},
+			Ok(Ok(_)) => {
+				acc.st.outcome("io-read-equal");
+				if trace.short_serves > 0 {
+					acc.st.outcome("io-read-equal-with-short-serves");
+				}
+			},
+		}
+	}
+	for kind in writer_alphabet(bytes.len(), depth) {
+		let fam = kind.family();
+		let rp = || format!("writer={kind:?}\n{}", replay());
+		let res = vcore::guard(|| io::with_writer(kind, bytes.len(), |mut w| value.write(&mut w)));
+		acc.st.eval();
+		match res {
+			Err(p) => {
+				acc.st.outcome("io-write-panicked");
+				ctx.diff(&format!("write:{fam}-writer:panic"), &format!("write panicked at {}: {}", p.site, p.msg), &rp);
+			},
+			Ok((Err(e), _, _)) => {
+				acc.st.outcome("io-write-failed");
+				ctx.diff(&format!("write:{fam}-writer:failed"), &format!("write fails into {kind:?}, which accepts every byte: {e}"), &rp);
+			},
+			Ok((Ok(()), out, _)) if out != bytes => {
+				acc.st.outcome("io-write-differs");
+				ctx.diff(&format!("write:{fam}-writer:differs"), &format!("{} bytes arrive in {kind:?}, other than the {} written into a Vec", out.len(), bytes.len()), &rp);
+			},
+			Ok((Ok(()), _, trace)) => {
+				acc.st.outcome("io-write-equal");
+				acc.io_short_accepts += trace.short_accepts;
+			},
+		}
+	}
+	// a writer that fails: the error must come back (not a panic, not Ok)
+	let limits: Vec<usize> = if depth == Depth::Small {
+		vec![0, bytes.len() / 2, bytes.len() - 1]
+	} else {
+		let step = if bytes.len() <= 300 { 1 } else { bytes.len() / 101 + 1 };
+		(0..bytes.len()).step_by(step).chain([bytes.len() - 1]).collect()
+	};
+	for limit in limits {
+		let rp = || format!("failing-writer-after={limit}\n{}", replay());
+		acc.st.eval();
+		match vcore::guard(|| io::with_failing_writer(limit, |mut w| value.write(&mut w))) {
+			Err(p) => ctx.diff("write:failing-writer:panic", &format!("write panicked at {} when the writer failed after {limit} bytes: {}", p.site, p.msg), &rp),
+			Ok((Ok(()), _)) => ctx.diff("write:failing-writer:reported-success", &format!("write returned Ok although the writer failed after {limit} of {} bytes", bytes.len()), &rp),
+			Ok((Err(_), n)) if n > limit => ctx.diff("write:failing-writer:wrote-on", &format!("{n} bytes arrived in a writer that fails after {limit}"), &rp),
+			Ok((Err(_), _)) => acc.st.outcome("io-write-error-reported"),
+		}
+	}
+	acc.st.eval();
+	match vcore::guard(|| io::with_short_slice(bytes.len(), 1, |mut w| value.write(&mut w))) {
+		Err(p) => ctx.diff("write:short-slice:panic", &format!("write panicked at {} into a slice one byte too small: {}", p.site, p.msg), replay),
+		Ok(Ok(())) => ctx.diff("write:short-slice:reported-success", "write returned Ok into a slice one byte too small", replay),
+		Ok(Err(_)) => acc.st.outcome("io-write-error-reported"),
+	}
+}
+
 #[derive(Clone, Copy, Default)]
 struct Causes {
 	two_slot: bool,
@@ -312,7 +459,7 @@ fn hex_replay(label: &str, bytes: &[u8]) -> String {
 }
 
 /// One well-formed class file: read it, write it, compare.
-fn roundtrip_bytes(ctx: &Ctx, acc: &mut Acc, label: &str, bytes: &[u8], source: Option<&SClass>, replay: &dyn Fn() -> String) -> Causes {
+fn roundtrip_bytes(ctx: &Ctx, acc: &mut Acc, label: &str, bytes: &[u8], source: Option<&SClass>, io_depth: Option<Depth>, replay: &dyn Fn() -> String) -> Causes {
 	let parsed = match cfmodel::parse(bytes) {
 		Ok(p) => p,
 		Err(e) => vcore::machinery_fail(&format!("{label}: the reference parser rejects a class of the test set: {e}")),
@@ -383,6 +530,9 @@ fn roundtrip_bytes(ctx: &Ctx, acc: &mut Acc, label: &str, bytes: &[u8], source: 
 		}
 		acc.read_census.class(&value);
 		acc.st.sample(label.split('/').next().unwrap_or(label), || json!({"label": label, "bytes": bytes.len(), "class_file_hex": vcore::hex(&bytes[..bytes.len().min(120)]), "this_class": parsed.class.this_class.to_string_lossy(), "outcome": "read, written, equal byte for byte"}));
+		if let Some(depth) = io_depth {
+			io_alphabet(ctx, acc, bytes, &value, depth, replay);
+		}
 		return causes;
 	}
 	acc.st.outcome("not-byte-exact");
@@ -397,7 +547,7 @@ fn roundtrip_bytes(ctx: &Ctx, acc: &mut Acc, label: &str, bytes: &[u8], source: 
 	causes
 }
 
-fn check_model(ctx: &Ctx, acc: &mut Acc, label: &str, model: &SClass, enc: &Encoding, derive: bool) {
+fn check_model(ctx: &Ctx, acc: &mut Acc, label: &str, model: &SClass, enc: &Encoding, derive: bool, io_depth: Option<Depth>) {
 	let bytes = match assemble(model, enc) {
 		Ok(b) => b,
 		Err(AsmError::Unencodable(_)) => {
@@ -406,7 +556,7 @@ fn check_model(ctx: &Ctx, acc: &mut Acc, label: &str, model: &SClass, enc: &Enco
 		},
 		Err(AsmError::Internal(e)) => vcore::machinery_fail(&format!("{label}: assembler: {e}")),
 	};
-	let causes = vcore::watched(|| hex_replay(label, &bytes), || roundtrip_bytes(ctx, acc, label, &bytes, Some(model), &|| hex_replay(label, &bytes)));
+	let causes = vcore::watched(|| hex_replay(label, &bytes), || roundtrip_bytes(ctx, acc, label, &bytes, Some(model), io_depth, &|| hex_replay(label, &bytes)));
 	if !derive {
 		return;
 	}
@@ -415,14 +565,14 @@ fn check_model(ctx: &Ctx, acc: &mut Acc, label: &str, model: &SClass, enc: &Enco
 		let (mut m, mut e) = (model.clone(), enc.clone());
 		strip::without_two_slot_constants(&mut m);
 		strip::without_two_slot_pads(&mut e);
-		check_model(ctx, acc, &format!("{label}/without-two-slot"), &m, &e, false);
+		check_model(ctx, acc, &format!("{label}/without-two-slot"), &m, &e, false, io_depth);
 	}
 	if causes.method_parameters {
 		let (mut m, mut e) = (model.clone(), enc.clone());
 		strip::without_two_slot_constants(&mut m);
 		strip::without_two_slot_pads(&mut e);
 		strip::without_method_parameters(&mut m);
-		check_model(ctx, acc, &format!("{label}/without-two-slot-and-MethodParameters"), &m, &e, false);
+		check_model(ctx, acc, &format!("{label}/without-two-slot-and-MethodParameters"), &m, &e, false, io_depth);
 	}
 }
 
@@ -460,7 +610,34 @@ fn value_replay(case: &values::Case) -> String {
 	)
 }
 
-fn check_value(ctx: &Ctx, acc: &mut Acc, case: &values::Case) {
+/// the number at the end of a case label (cases of one focus are numbered in generation order)
+fn label_number(label: &str) -> usize {
+	label.rsplit('/').next().and_then(|n| n.parse().ok()).unwrap_or(0)
+}
+
+/// Chains  write → edit one table in place → write: a value that has been measured and serialised before and is
+/// then changed is still just a value; what is written (and announced by `length()`) depends on the value alone.
+/// Every table of the value (in visiting order) × {remove the last element, repeat the last element}.
+fn edit_chains(ctx: &Ctx, acc: &mut Acc, case: &values::Case) {
+	let mut probe = case.value.clone();
+	let n_tables = edits::tables(&mut probe).len();
+	for t in 0..n_tables {
+		for (op, op_name) in [(edits::Op::Pop, "pop"), (edits::Op::Dup, "dup")] {
+			let mut v = case.value.clone();
+			// the value has a past: it was measured, written and written again
+			let before = vcore::guard(|| (v.length(), v.to_bytes(), v.to_bytes().len()));
+			if before.is_err() {
+				return; // reported by check_value on the case itself
+			}
+			let Some(table) = edits::apply(&mut v, t, op) else { continue };
+			*acc.edit_chains.entry(table).or_insert(0) += 1;
+			let edited = values::Case { label: format!("{}/edit/{t}/{op_name}", case.label), focus: case.focus, pool: case.pool, value: v, deep: false, optional: true };
+			check_value(ctx, acc, &edited, false);
+		}
+	}
+}
+
+fn check_value(ctx: &Ctx, acc: &mut Acc, case: &values::Case, chains: bool) {
 	let v = &case.value;
 	let label = &case.label;
 	let focus = case.focus;
@@ -554,6 +731,10 @@ fn check_value(ctx: &Ctx, acc: &mut Acc, case: &values::Case) {
 				ctx.diff(&cause_key("bytes-left-unread"), &format!("read stops after {pos} of {} written bytes", w.len()), replay);
 			} else {
 				acc.st.outcome("value-read-back-equal");
+				if !label.contains("/edit/") {
+					let full = case.deep && label_number(label) % ctx.tier.pick(12usize, 1) == 0 && w.len() < 4000;
+					io_alphabet(ctx, acc, &w, v, if full { Depth::Full } else { Depth::Small }, &replay);
+				}
 			}
 		},
 	}
@@ -593,7 +774,10 @@ fn check_value(ctx: &Ctx, acc: &mut Acc, case: &values::Case) {
 		}
 	}
 	// and the JVMS bytes of the value are a well-formed file: part 1 on them
-	roundtrip_bytes(ctx, acc, &format!("{label}/jvms-bytes"), &reference, None, &replay);
+	roundtrip_bytes(ctx, acc, &format!("{label}/jvms-bytes"), &reference, None, None, &replay);
+	if chains && case.deep && case.pool == PoolVariant::Base && v.length() < 4000 {
+		edit_chains(ctx, acc, case);
+	}
 }
 
 fn run_values(ctx: &Ctx, variant: PoolVariant) -> (Acc, usize) {
@@ -603,7 +787,7 @@ fn run_values(ctx: &Ctx, variant: PoolVariant) -> (Acc, usize) {
 		eprintln!("[{:7.2}s] generated {n} raw values ({})", ctx.elapsed_s(), variant.name());
 	}
 	let acc = cases.par_iter().fold(Acc::default, |mut acc, case| {
-		vcore::watched(|| format!("raw-case={}", case.label), || check_value(ctx, &mut acc, case));
+		vcore::watched(|| format!("raw-case={}", case.label), || check_value(ctx, &mut acc, case, true));
 		acc
 	}).reduce(Acc::default, Acc::merge);
 	(acc, n)
@@ -615,7 +799,7 @@ fn run_frame_pairs(ctx: &Ctx, variant: PoolVariant) -> (Acc, usize) {
 	let n = space.count();
 	let acc = (0..n).into_par_iter().fold(Acc::default, |mut acc, i| {
 		let case = space.nth(i);
-		vcore::watched(|| format!("raw-case={}", case.label), || check_value(ctx, &mut acc, &case));
+		vcore::watched(|| format!("raw-case={}", case.label), || check_value(ctx, &mut acc, &case, true));
 		acc
 	}).reduce(Acc::default, Acc::merge);
 	(acc, n)
@@ -633,16 +817,18 @@ fn replay(ctx: &Ctx, path: &std::path::Path) -> ! {
 			if let Some((_, i)) = label.split_once("/StackMapTable-pair/") {
 				let space = values::FramePairs::new(variant);
 				let i: usize = i.parse().ok().filter(|i| *i < space.count()).unwrap_or_else(|| vcore::machinery_fail("replay: bad frame pair index"));
-				check_value(ctx, &mut acc, &space.nth(i));
+				check_value(ctx, &mut acc, &space.nth(i), true);
 			} else {
+				// an edited case replays the chains of its origin
+				let origin = label.split("/edit/").next().unwrap_or(label);
 				let cases = values::cases(variant);
-				let case = cases.iter().find(|c| c.label == label).unwrap_or_else(|| vcore::machinery_fail("replay: no such raw case"));
-				check_value(ctx, &mut acc, case);
+				let case = cases.iter().find(|c| c.label == origin).unwrap_or_else(|| vcore::machinery_fail("replay: no such raw case"));
+				check_value(ctx, &mut acc, case, true);
 			}
 		} else {
 			let hex: String = body.lines().skip_while(|l| !l.starts_with("class file bytes")).skip(1).collect();
 			let bytes = vcore::unhex(&hex).unwrap_or_else(|| vcore::machinery_fail("replay: bad hex"));
-			roundtrip_bytes(ctx, &mut acc, "replay", &bytes, None, &|| hex_replay("replay", &bytes));
+			roundtrip_bytes(ctx, &mut acc, "replay", &bytes, None, Some(Depth::Full), &|| hex_replay("replay", &bytes));
 		}
 		evals += acc.st.evaluations;
 	}
@@ -653,6 +839,9 @@ fn main() {
 	let ctx: &'static Ctx = Box::leak(Box::new(Ctx::new("C20", "exploration")));
 	if let Some(path) = ctx.replay.clone() {
 		replay(ctx, &path);
+	}
+	if let Err(e) = io::self_test() {
+		vcore::machinery_fail(&format!("scripted readers/writers: {e}"));
 	}
 	let quick = ctx.tier == Tier::Quick;
 	let thorough = !quick;
@@ -667,9 +856,12 @@ fn main() {
 	};
 
 	// ---- part 1: generated classes ----
+	let full_every: usize = ctx.tier.pick(16, 2);
 	for (name, cases) in cfmodel::suite::listed_groups(quick) {
-		let acc = cases.into_par_iter().fold(Acc::default, |mut acc, (label, m, e)| {
-			check_model(ctx, &mut acc, &label, &m, &e, true);
+		let acc = cases.into_par_iter().enumerate().fold(Acc::default, |mut acc, (i, (label, m, e))| {
+			// the full reader / writer alphabet on every `full_every`th case of the group, the small one on the others
+			let depth = if i % full_every == 0 { Depth::Full } else { Depth::Small };
+			check_model(ctx, &mut acc, &label, &m, &e, true, Some(depth));
 			acc
 		}).reduce(Acc::default, Acc::merge);
 		run(name, acc);
@@ -686,7 +878,7 @@ fn main() {
 				if k == 1 && len >= 3 && idx % 7 != 0 {
 					continue; // the second encoding on a fixed 1/7 slice of the longer spaces (stated in bounds)
 				}
-				check_model(ctx, &mut acc, &format!("shape/len{len}/{idx}/enc{k}"), &m, e, false);
+				check_model(ctx, &mut acc, &format!("shape/len{len}/{idx}/enc{k}"), &m, e, false, Some(if idx % (full_every as u64 * 8) == 0 { Depth::Full } else { Depth::Small }));
 			}
 			acc
 		}).reduce(Acc::default, Acc::merge);
@@ -698,7 +890,7 @@ fn main() {
 	let n_corpus = corpus.len();
 	let acc = corpus.par_iter().fold(Acc::default, |mut acc, (name, bytes)| {
 		let label = format!("corpus/{name}");
-		vcore::watched(|| hex_replay(&label, bytes), || roundtrip_bytes(ctx, &mut acc, &label, bytes, None, &|| hex_replay(&label, bytes)));
+		vcore::watched(|| hex_replay(&label, bytes), || roundtrip_bytes(ctx, &mut acc, &label, bytes, None, Some(Depth::Full), &|| hex_replay(&label, bytes)));
 		acc
 	}).reduce(Acc::default, Acc::merge);
 	let corpus_exact = acc.st.get("byte-exact");
@@ -710,7 +902,7 @@ fn main() {
 		n_jdk = jdk.len();
 		let acc = jdk.par_iter().fold(Acc::default, |mut acc, (name, bytes)| {
 			let label = format!("jdk/{name}");
-			vcore::watched(|| hex_replay(&label, bytes), || roundtrip_bytes(ctx, &mut acc, &label, bytes, None, &|| hex_replay(&label, bytes)));
+			vcore::watched(|| hex_replay(&label, bytes), || roundtrip_bytes(ctx, &mut acc, &label, bytes, None, Some(Depth::Small), &|| hex_replay(&label, bytes)));
 			acc
 		}).reduce(Acc::default, Acc::merge);
 		jdk_exact = acc.st.get("byte-exact");
@@ -747,6 +939,14 @@ fn main() {
 	ctx.floor("ElementValue variants exercised as raw values (of 13)", refenc::ELEMENT_KINDS as u64, total.value_census.count_group("element"));
 	ctx.floor("raw values whose written bytes are exactly the JVMS encoding", 2_500, st.get("value-bytes-as-prescribed"));
 	ctx.floor("raw values read back equal", 5_000, st.get("value-read-back-equal"));
+	ctx.floor("reads through a reader that served at least one request short, equal to the read from a cursor", ctx.tier.pick(200_000, 2_000_000), st.get("io-read-equal-with-short-serves"));
+	ctx.floor("requests served short by the scripted readers", 1_000_000, total.io_short_serves);
+	ctx.floor("requests answered with Interrupted", 100_000, total.io_interrupts);
+	ctx.floor("write calls of which the scripted writers accepted only a part", 100_000, total.io_short_accepts);
+	ctx.floor("writes into every writer of the alphabet that arrived byte for byte", 200_000, st.get("io-write-equal"));
+	ctx.floor("failing writers whose error write reported", 100_000, st.get("io-write-error-reported"));
+	ctx.floor("edit chains (written, one table edited in place, judged again)", 50_000, total.edit_chains.values().sum());
+	ctx.floor("tables edited in place (of the 40 table kinds edits.rs visits)", 36, total.edit_chains.len() as u64);
 	ctx.floor("raw values whose written bytes were also read by duke", 2_500, st.get("value-bytes-read-by-duke"));
 
 	let coverage = json!({
@@ -758,6 +958,17 @@ fn main() {
 		"outcomes": st.outcomes,
 		"spaces": spaces,
 		"raw_value_cases_per_focus": total.focus,
+		"edit_chains_per_table": total.edit_chains,
+		"io": {
+			"requests_served_short": total.io_short_serves,
+			"requests_answered_interrupted": total.io_interrupts,
+			"write_calls_partly_accepted": total.io_short_accepts,
+			"reader_alphabet_full": format!("{:?} + SplitAt(every byte offset of files up to 700 bytes, a grid of 331 offsets beyond)", reader_alphabet(1, Depth::Full)),
+			"reader_alphabet_small": format!("{:?}", reader_alphabet(1, Depth::Small)),
+			"writer_alphabet_full": format!("{:?} + SplitAt(every offset up to 300 bytes, a grid of 101 beyond) + a writer failing after every such prefix + a slice one byte too small", writer_alphabet(1, Depth::Full)),
+			"writer_alphabet_small": format!("{:?} + a writer failing after 0, half, all but one bytes", writer_alphabet(1, Depth::Small)),
+			"full_alphabet_on": format!("every corpus class, every {full_every}th case of each suite group, every {}th shape, every {}th deep raw value (files under 4000 bytes); the small alphabet on all others", full_every * 8, ctx.tier.pick(12, 1)),
+		},
 		"variants_in_raw_values": total.value_census.0,
 		"variants_in_values_read_from_byte_exact_files": total.read_census.0,
 		"pool_entry_kinds_given_to_read": total.fed_tags,
@@ -781,5 +992,6 @@ fn main() {
 		"raw values are taken from the domain the JVMS gives the type: offset_delta of same_frame <= 63, chop k in 1..=3, append with 1..=3 locals, vector lengths within the width of their count; values outside it ('no format checking is done') are not judged",
 		"RuntimeVisible/InvisibleTypeAnnotations are not modelled by the crate (TODO in the source) and are exercised as `Other`",
 		"duke::read_class on the written bytes is recorded but a refusal by duke of JVMS bytes is not charged to raw_class_file",
+		"a class file is the same class file through every legal std::io::Read / Write: short serves, Interrupted (retry) and partial accepts are legal answers of the environment; the scripted readers and writers are self-tested (read_exact / write_all reproduce the data) before use",
 	]);
 }
